@@ -135,6 +135,9 @@ func (ex *Exec) instr(fr *Frame, st *State, in ssa.Instruction) {
 		val := ex.operand(fr, st, x.Val)
 		switch a := addr.(type) {
 		case Ptr:
+			if g, isG := a.Loc.Root.(GlobalRoot); isG {
+				ex.checkGuards(fr, st, "write", g.G.Name(), x.Pos())
+			}
 			ex.store(st, a.Loc, val)
 		case Term:
 			// *ref = structValue
@@ -403,6 +406,9 @@ func (ex *Exec) unop(fr *Frame, st *State, x *ssa.UnOp) Value {
 		addr := ex.operand(fr, st, x.X)
 		switch a := addr.(type) {
 		case Ptr:
+			if g, isG := a.Loc.Root.(GlobalRoot); isG {
+				ex.checkGuards(fr, st, "read", g.G.Name(), x.Pos())
+			}
 			v := ex.load(st, a.Loc)
 			if t, ok := v.(Term); ok {
 				if _, isHeap := a.Loc.Root.(HeapRoot); isHeap {
